@@ -360,6 +360,6 @@ class Outcome:
 COMMON_TRUSTED = [
     'Coq 8.16.1 kernel (coqc); vm_compute only inside witness lemmas; no native_compute',
     'harness/py2coq.py, py2coq_conn.py, py2coq_sets.py, py2coq_util.py, py2coq_sched.py, py2coq_attrs.py, py2coq_connone.py, py2coq_adapt.py, py2coq_bulk.py, py2coq_data.py, py2coq_cycle.py, py2coq_anc.py, py2coq_group.py (Python-ast -> Coq translators, fail-closed) and coq/Prelude/Py.v, coq/Prelude/PyG.v, coq/Sched/GenView.v (meaning given to Python tuples, slices, zip, total_ordering, list item assignment; SimGroup objects as ids of a group table; SimRunner objects as views, next_steps[0] of a heapq heap as the minimum, min() of a list) and the other hand-written preludes of generated files: Static/GenConn.v, Ext/GenAdapt.v, Ext/GenBulk.v (random.shuffle / randint as an oracle, float("inf") as None), Sched/GenData.v (TimedInputBuffer, compared literally), Static/GenCycle.v and Static/GenAnc.v (the while loops around set.pop(), oldest element first); the entity level of mosaik\'s input dicts is dropped by py2coq_data.py (one entity per simulator)',
-    'extraction: ExtrOcamlBasic only (Extract Inductive bool, option, unit, list, prod, sumbool, sumor; Extract Inlined Constant andb, orb); Z/nat/positive extracted as Coq datatypes; OCaml 4.13.1; ocaml/util.ml + ocaml/driver.ml (I/O glue)',
+    'extraction: ExtrOcamlBasic only (Extract Inductive bool, option, unit, list, prod, sumbool, sumor; Extract Inlined Constant andb, orb); Z/nat/positive extracted as Coq datatypes; extracted: the hand-written models, the generated tiered_time functions and the two generated closures (cycle_check_gen, ancestors_gen); OCaml 4.13.1; ocaml/util.ml + ocaml/driver.ml (I/O glue)',
     'the correspondence harness (harness/*.py) and CPython 3.12 asyncio',
 ]
